@@ -1,5 +1,6 @@
 import DEvo.Opt.Regroup
 import DEvo.Mut.Env
+import DEvo.Generated.Tables
 
 /-! # C03 — optimising a mutation sequence never changes its outcome
 
@@ -124,6 +125,30 @@ theorem C03_cex_second_pass_differs :
       .ok ([.addField "Alpha" "b" "IntegerField" (some "1") [], .renameField "Alpha" "x" "b" none none],
            [.addField "Alpha" "b" "IntegerField" (some "1") [], .renameField "Alpha" "x" "b" none none]) := by
   decide
+
+/-- the optimiser in the current source starts with `mutations = copy.deepcopy(mutations)`
+(regenerated on every run; finding F4 repaired) -/
+theorem C03_source_copies : DEvo.Generated.optimizerCopies = true := by decide
+
+/-- **processing leaves the evolution definitions exactly as they were**, and therefore a second
+processing of the same definitions gives the same optimised list as the first (what
+`EvolveAppTask.prepare` previews is what `_build_batches` executes) -/
+theorem C03_defs_unchanged (existing : List String) (ms out arr : List Mutation)
+    (h : preprocessC DEvo.Generated.optimizerCopies existing ms = .ok (out, arr)) :
+    arr = ms ∧ preprocessC DEvo.Generated.optimizerCopies existing arr = .ok (out, arr) := by
+  rw [C03_source_copies] at h ⊢
+  unfold preprocessC at h ⊢
+  simp only [if_true] at h ⊢
+  cases hp : preprocess existing ms with
+  | error e => simp [hp, Except.map] at h
+  | ok r =>
+    simp only [hp, Except.map] at h
+    injection h with h
+    have h2 : arr = ms := (Prod.mk.inj h).2.symm
+    have h1 : r.1 = out := (Prod.mk.inj h).1
+    refine ⟨h2, ?_⟩
+    rw [h2, hp]
+    simp [Except.map, h1]
 
 /-- F19: a self-rename followed by another rename raises `KeyError` inside the optimiser. -/
 theorem C03_cex_self_rename_keyerror :
